@@ -73,6 +73,20 @@ theorem ty_kept_of_passes_nodyn {spec : Spec} {w o : Value}
         · cases hc
         · simp [h', h] at hc
 
+/-- one argument whose parameter does not say `AllowUnknown`: a weakening that reaches `Impl` is known -/
+theorem known_of_reaches1 {spec : Spec} {w : Value}
+    (h : ((spec.expand 1).head?.map (·.allowUnknown)) = some false) (hr : ReachesImpl spec [w]) :
+    w.isKnown = true := by
+  unfold ReachesImpl at hr
+  simp only [List.length_singleton] at hr
+  cases he : spec.expand 1 with
+  | nil => rw [he] at h; simp at h
+  | cons p ps =>
+    rw [he] at h hr
+    simp only [List.head?_cons, Option.map_some, Option.some.injEq] at h
+    simp only [pass2, Bool.or_eq_false_iff, Param.blocksUnknown, h, Bool.not_false, Bool.and_true] at hr
+    simpa using hr.1
+
 theorem compact_implSound (E : Env) (o w : Value) (hty : w.ty = o.ty)
     (hmw : w.containsMarked = false) (hmo : o.containsMarked = false) (hs : noSet w.v = true)
     (hc : CoversX w o = true) : ImplSoundAt compactType (compactImpl E) [o] [w] :=
